@@ -24,6 +24,14 @@ TOK = re.compile(r"""\s*(?:
 )""", re.X)
 
 
+# offset, width of the USR fields used by the bundled set/get_usr_field routines (shared by interpreter and reference)
+REGFIELDS = {
+    "HEX_REG_FIELD_USR_OVF": (0, 1), "HEX_REG_FIELD_USR_FPINVF": (1, 1), "HEX_REG_FIELD_USR_FPDBZF": (2, 1),
+    "HEX_REG_FIELD_USR_FPOVFF": (3, 1), "HEX_REG_FIELD_USR_FPUNFF": (4, 1), "HEX_REG_FIELD_USR_FPINPF": (5, 1),
+    "HEX_REG_FIELD_USR_LPCFG": (8, 2), "HEX_REG_FIELD_USR_FPRND": (22, 2),
+}
+
+
 class Unsupported(Exception):
     """Emitted text uses something this model does not cover (the run is skipped, not judged)."""
 
@@ -415,6 +423,17 @@ class Machine:
                 raise Unsupported("deposit outside the word")
             m = mask(length) << start
             return (w, (x & ~m & mask(w)) | ((fv << start) & m))
+        if f == "HEX_REGFIELD":
+            # plugin table lookup; the concrete numbers are a table shared with the reference (sim/il.REGFIELDS)
+            prop, field = a[0], a[1]
+            if prop[0] != "var" or field[0] != "var" or field[1] not in REGFIELDS:
+                raise Unsupported(f"HEX_REGFIELD({str(prop)[:30]}, {str(field)[:40]})")
+            off, width = REGFIELDS[field[1]]
+            if prop[1] == "HEX_RF_WIDTH":
+                return (32, width)
+            if prop[1] == "HEX_RF_OFFSET":
+                return (32, off)
+            raise Unsupported(f"HEX_REGFIELD property {prop[1]}")
         if f == "LOADW":
             n = self.cnum(a[0])
             _, addr = self.bv(a[1])
